@@ -8,13 +8,12 @@ Open Scope N_scope.
 (* ---- state machine facts ---- *)
 Lemma start_active st : valid_state st = true -> (if st =? QS_Active then st else q_event EV_Start st) = QS_Active.
 Proof.
-  unfold valid_state. intros H. destruct (N.eqb_spec st QS_Active) as [->|Hne]; [reflexivity|].
-  apply orb_true_iff in H as [H|H]; [apply orb_true_iff in H as [H|H]|]; apply N.eqb_eq in H; subst; try reflexivity.
-  contradiction.
+  unfold valid_state. intros H. destruct (N.eqb_spec st QS_Active) as [He|Hne]; [exact He|].
+  cbn [orb] in H. apply orb_true_iff in H as [H|H]; apply N.eqb_eq in H; rewrite H; reflexivity.
 Qed.
 Lemma start_not_draining st : (if st =? QS_Active then st else q_event EV_Start st) <> QS_Draining.
 Proof.
-  destruct (N.eqb_spec st QS_Active) as [->|Hne]; [discriminate|].
+  destruct (N.eqb_spec st QS_Active) as [He|Hne]; [rewrite He; discriminate|].
   unfold q_event, fsm_event. cbn [N.eqb EV_Start EV_Remove]. change (EV_Start =? EV_Remove) with false. cbv iota.
   change (EV_Start =? EV_Start) with true. cbv iota.
   destruct ((st =? QS_Active) || (st =? QS_Stopped) || (st =? QS_Draining)) eqn:E; [discriminate|].
@@ -40,7 +39,7 @@ Ltac refl_all := rewrite ?N.eqb_refl, ?eqb_reflx, ?ores_eqm_refl, ?props_eqb_ref
 Lemma upd_root_ok c pq ex : ex_ok c ex -> node_okb c pq (upd_root c pq ex) = true.
 Proof.
   destruct ex as [[q0 k0]|]; intros Hex.
-  - destruct Hex as (Hid & Hnr & Hok). cbn [qid troot] in Hid, Hnr. apply tree_okb_state in Hok. cbn [troot] in Hok.
+  - destruct Hex as (Hid & Hnr & Hok). unfold qid in Hid. cbn [troot] in Hid, Hnr. apply tree_okb_state in Hok. cbn [troot] in Hok.
     unfold node_okb, upd_root, update_props, merge_parent, with_props, apply_conf.
     cbn [m_id m_parent m_leaf m_managed m_state m_max m_guar m_maxapps m_props m_derived m_ledger].
     rewrite Hnr, Hid, (start_active _ Hok). refl_all. reflexivity.
@@ -102,7 +101,7 @@ Qed.
 
 Theorem accept_applies_thm c t : tree_okb t = true -> qid t = ct_id c -> P_applies c (flatten (reload_tree c t)) = true.
 Proof.
-  destruct t as [q0 k0]. intros Hok Hid. cbn [qid troot] in Hid. rewrite reload_tree_unfold.
+  destruct t as [q0 k0]. intros Hok Hid. unfold qid in Hid. cbn [troot] in Hid. rewrite reload_tree_unfold.
   pose proof (tree_okb_inv _ _ Hok) as (Hv & Hnd & Hk).
   unfold P_applies. apply andb_true_intro. split.
   - apply existsb_exists. exists (update_props (apply_conf c q0)). split; [cbn; left; reflexivity|].
@@ -277,18 +276,24 @@ Proof.
     destruct ex as [[q0 k0]|]; cbn; unfold ct_leaf; cbn [ct_kids]; destruct ckids; congruence.
   - apply N.eqb_neq. destruct ex as [[q0 k0]|]; cbn; [apply start_not_draining|discriminate].
 Qed.
+Lemma upd_chk_unfold c pq ex :
+  upd_chk c pq ex =
+  if negb (match ex with None => can_add_child pq | Some _ => true end) then None else
+  match all_some (map (fun c1 => upd_chk c1 (upd_root c pq ex) (find_kid (ct_id c1) (ex_kids ex))) (ct_kids c)) with
+  | Some vis => Some (QT (upd_root c pq ex) (vis ++ map mark (filter (fun k => negb (memN (qid k) (map ct_id (ct_kids c)))) (ex_kids ex))))
+  | None => None
+  end.
+Proof. destruct c; destruct ex as [[q0 k0]|]; reflexivity. Qed.
 Lemma upd_chk_ok c : forall pq ex, (ex = None -> can_add_child pq = true) -> upd_chk c pq ex = Some (upd c pq ex).
 Proof.
   induction c as [id par mx gu ma pr ckids IH] using conf_tree_ind'. intros pq ex Hadd.
-  rewrite upd_unfold. cbn [ct_kids]. unfold upd_kids.
+  rewrite upd_unfold, upd_chk_unfold. cbn [ct_kids]. unfold upd_kids.
   set (c := CT id par mx gu ma pr ckids). set (q := upd_root c pq ex).
   assert (Hvis : all_some (map (fun c1 => upd_chk c1 q (find_kid (ct_id c1) (ex_kids ex))) ckids)
                  = Some (map (fun c1 => upd c1 q (find_kid (ct_id c1) (ex_kids ex))) ckids)).
   { apply all_some_map. intros c1 Hc1. rewrite Forall_forall in IH. apply IH; [assumption|].
     intros _. apply can_add_after_conf. cbn. intros E. rewrite E in Hc1. contradiction. }
-  destruct ex as [[q0 k0]|]; cbn [upd_chk negb].
-  - fold c. change (update_props (merge_parent pq (apply_conf c q0))) with q. cbn [ex_kids] in Hvis. rewrite Hvis. reflexivity.
-  - rewrite (Hadd eq_refl). cbn [negb]. fold c. change (new_queue c pq) with q. cbn [ex_kids] in Hvis. rewrite Hvis. reflexivity.
+  rewrite Hvis. destruct ex as [[q0 k0]|]; [reflexivity|]. rewrite (Hadd eq_refl). reflexivity.
 Qed.
 Theorem reload_never_fails_midway c t : reload_tree_chk c t = Some (reload_tree c t).
 Proof.
@@ -327,13 +332,14 @@ Definition ex_tree : qtree :=
   QT (blank 1 0 false [])
      [QT (blank 2 1 true [7]) [];
       QT (blank 4 1 false []) [QT (blank 5 4 true [8; 9]) []];
-      QT (mkMQ 6 1 true false QS_Active None None 0 [] (mkD SORT_fifo true PRE_default 0 0%Z) (mkL [(1, 3%Z)] [] [] 1 [] [] [10])) []].
+      QT (mkMQ 6 1 true false QS_Active None None 0 [] (mkD SORT_fifo true PRE_default 0 0%Z) (mkL [(1, 3%Z)] [] [] 1 [] [] [10])) [];
+      QT (mkMQ 11 1 true false QS_Active None None 0 [] (mkD SORT_fifo true PRE_default 0 0%Z) empty_ledger) []].
 Definition ex_conf : conf_tree :=
   CT 1 true [] [] 0 [(k_preemption_policy, s_disabled)]
      [CT 2 false [(1, 10%Z)] [(1, 5%Z)] 2 [(k_priority_offset, [53])] []; CT 3 false [] [] 0 [] []].
 Example ex_hypotheses :
   tree_okb ex_tree = true /\ qid ex_tree = ct_id ex_conf /\
-  map m_id (exp_drain ex_conf ex_tree) = [4; 5] /\ map m_id (exp_untouched ex_conf ex_tree) = [6] /\
-  map m_id (flatten (reload_tree ex_conf ex_tree)) = [1; 2; 3; 4; 5; 6] /\
-  map m_id (flatten_opt (clean (reload_tree ex_conf ex_tree))) = [1; 2; 4; 5; 6].
+  map m_id (exp_drain ex_conf ex_tree) = [4; 5] /\ map m_id (exp_untouched ex_conf ex_tree) = [6; 11] /\
+  map m_id (flatten (reload_tree ex_conf ex_tree)) = [1; 2; 3; 4; 5; 6; 11] /\
+  map m_id (flatten_opt (clean (reload_tree ex_conf ex_tree))) = [1; 2; 3; 4; 5; 6].
 Proof. vm_compute. repeat split. Qed.
